@@ -1,6 +1,9 @@
 /-
 Driver for the density / elliptic solver / quasi-neutrality models (C14, C15, C16) at K := ℚ.
 `lake env lean --run Drivers/C14.lean`
+
+Tables are materialised as `Array`s bound by `let` inside the handlers (a `def` returning a closure would be
+eta-expanded by the compiler and recompute its table on every call).
 -/
 import PygyroVerif.DriverUtil
 import PygyroVerif.Model.Density
@@ -9,15 +12,29 @@ import Mathlib.Algebra.Order.Field.Rat
 
 open Lean PygyroVerif PygyroVerif.DriverUtil
 
-def fn1 (l : List Rat) : ℕ → Rat := let a := l.toArray; fun i => a.getD i 0
-def fn2 (l : List (List Rat)) : ℕ → ℕ → Rat :=
-  let a := (l.map List.toArray).toArray; fun i j => (a.getD i #[]).getD j 0
-def fn4 (l : List (List (List (List Rat)))) : ℕ → ℕ → ℕ → ℕ → Rat :=
-  let a := (l.map (fun x => (x.map (fun y => (y.map List.toArray).toArray)).toArray)).toArray
-  fun i j k m => (((a.getD i #[]).getD j #[]).getD k #[]).getD m 0
+abbrev A1 := Array Rat
+abbrev A2 := Array (Array Rat)
+abbrev A3 := Array (Array (Array Rat))
+abbrev A4 := Array (Array (Array (Array Rat)))
 
-def rat2 (j : Json) : R (List (List Rat)) := listOf ratList j
-def rat4 (j : Json) : R (List (List (List (List Rat)))) := listOf (listOf rat2) j
+def get1 (a : A1) (i : ℕ) : Rat := a.getD i 0
+def get2 (a : A2) (i j : ℕ) : Rat := (a.getD i #[]).getD j 0
+def get3 (a : A3) (i j k : ℕ) : Rat := ((a.getD i #[]).getD j #[]).getD k 0
+def get4 (a : A4) (i j k l : ℕ) : Rat := (((a.getD i #[]).getD j #[]).getD k #[]).getD l 0
+
+def mk1 (n : ℕ) (f : ℕ → Rat) : A1 := Array.ofFn (n := n) (fun i => f i.1)
+def mk2 (n m : ℕ) (f : ℕ → ℕ → Rat) : A2 := Array.ofFn (n := n) (fun i => mk1 m (f i.1))
+def mk3 (n m p : ℕ) (f : ℕ → ℕ → ℕ → Rat) : A3 := Array.ofFn (n := n) (fun i => mk2 m p (f i.1))
+
+def rat2 (j : Json) : R A2 := do pure ((← listOf ratList j).map List.toArray).toArray
+def rat4 (j : Json) : R A4 := do
+  let l ← listOf (listOf (listOf ratList)) j
+  pure (l.map (fun x => (x.map (fun y => (y.map List.toArray).toArray)).toArray)).toArray
+
+def jA1 (a : A1) : Json := Json.arr (a.map jRat)
+def jA2 (a : A2) : Json := Json.arr (a.map jA1)
+
+/-! ### C16 -/
 
 def handleDensity (j : Json) : R Json := do
   let q ← fRatList j "q"
@@ -26,15 +43,15 @@ def handleDensity (j : Json) : R Json := do
   let rstart ← fNat j "rstart"
   let pert ← fBool j "perturbed"
   let nc := q.length
-  let qf := fn1 q
-  let fe := fn2 feq
-  -- the harness sends the block the rank owns; its own offset inside the global field is (rstart, ·):
+  let qa := q.toArray
+  let qf : ℕ → Rat := get1 qa
+  let fe : ℕ → ℕ → Rat := get2 feq
+  -- the harness sends the block the rank owns; its offset inside the global field is (rstart, ·):
   -- F (rstart+i) (zstart+j) = block i j, realised with zstart = 0 and a shifted accessor
-  let b := fn4 blk
-  let F : ℕ → ℕ → ℕ → ℕ → Rat := fun r z k l => b (r - rstart) z k l
-  let nr := blk.length
-  let nz := (blk.headD []).length
-  let nt := ((blk.headD []).headD []).length
+  let F : ℕ → ℕ → ℕ → ℕ → Rat := fun r z k l => get4 blk (r - rstart) z k l
+  let nr := blk.size
+  let nz := (blk.getD 0 #[]).size
+  let nt := ((blk.getD 0 #[]).getD 0 #[]).size
   let val (i jj k : ℕ) : Rat :=
     if pert then Density.getPerturbedRhoLocal qf nc fe F rstart 0 i jj k
     else Density.getRhoLocal qf nc F rstart 0 i jj k
@@ -48,34 +65,6 @@ def handleDensity (j : Json) : R Json := do
 /-! ### C14 / C15 -/
 open PygyroVerif.Poisson
 
-def tab2 (l : List (List Rat)) : ℕ → ℕ → Rat := fn2 l
-def abs2 (f : ℕ → ℕ → Rat) : ℕ → ℕ → Rat := fun a b => |f a b|
-
-/-- materialise a function of three indices (sharing: each value is computed once) -/
-def memo3 (n1 n2 n3 : ℕ) (f : ℕ → ℕ → ℕ → Rat) : ℕ → ℕ → ℕ → Rat :=
-  let a := Array.ofFn (n := n1) (fun i => Array.ofFn (n := n2) (fun j => Array.ofFn (n := n3) (fun k => f i.1 j.1 k.1)))
-  fun i j k => (((a.getD i #[]).getD j #[]).getD k 0)
-
-def memo2 (n1 n2 : ℕ) (f : ℕ → ℕ → Rat) : ℕ → ℕ → Rat :=
-  let a := Array.ofFn (n := n1) (fun i => Array.ofFn (n := n2) (fun j => f i.1 j.1))
-  fun i j => ((a.getD i #[]).getD j 0)
-
-/-- `Poisson.assemble` with the rows of the diagonal storage computed once each
-    (same primitives `symRow`/`fullRow`/`aliasIdx`/`diagsEntry`, composed exactly as in `Poisson.assemble`) -/
-def assembleShared (d nb : ℕ) (Q : Quad Rat) (co : Coefs Rat) (P dP : ℕ → ℕ → ℕ → Rat) : Assembled Rat :=
-  let sym (term : ℕ → ℕ → Rat) : ℕ → ℕ → Rat :=
-    let rows := memo2 nb (d + 1) (fun i => symRow d nb term i)
-    memo2 nb nb (diagsEntry d (fun li i => rows i (aliasIdx d li)))
-  let full (up lo : ℕ → ℕ → Rat) : ℕ → ℕ → Rat :=
-    let rows := memo2 nb (2 * d + 1) (fun i => fullRow d nb up lo i)
-    memo2 nb nb (diagsEntry d (fun li i => rows i li))
-  { mass := sym (massTerm d Q co P), k2 := sym (k2Term d Q co P), phiPsi := sym (phiPsiTerm d Q co P),
-    dPhidPsi := full (dPhidPsiUp d Q co P dP) (dPhidPsiLo d Q co P dP),
-    dPhiPsi := full (dPhiPsiUp d Q co P dP) (dPhiPsiLo d Q co P dP) }
-
-def jMat (n m : ℕ) (f : ℕ → ℕ → Rat) : Json :=
-  jList (fun a => jList (fun b => jRat (f a b)) (List.range m)) (List.range n)
-def jVec (n : ℕ) (f : ℕ → Rat) : Json := jList (fun a => jRat (f a)) (List.range n)
 def jPair (p : ℕ × ℕ) : Json := jNats [p.1, p.2]
 
 def cfgOf (j : Json) (nb : ℕ) : R BCConfig := do
@@ -94,35 +83,75 @@ def handleSlices (j : Json) : R Json := do
   pure <| obj [("start_range", jNat (startRange c)), ("end_range", jNat (endRange c)), ("n_unknowns", jNat (nUnknowns c)),
     ("poorly", jInts (poorlyDefined c)), ("refuses", toJson (refuses c cnull)), ("modes", Json.arr modes.toArray)]
 
+/-- the five matrices as arrays: `Poisson.assemble`'s definition (`diagsEntry` of `symDiag`/`fullDiag`), with each
+    row of the diagonal storage (`symRow`/`fullRow`, lists) computed once -/
+def symMat (d nb : ℕ) (term : ℕ → ℕ → Rat) : A2 :=
+  let rows : Array (List Rat) := Array.ofFn (n := nb) (fun i => symRow d nb term i.1)
+  mk2 nb nb (diagsEntry d (fun li i => (rows.getD i []).getD (aliasIdx d li) 0))
+
+def fullMat (d nb : ℕ) (up lo : ℕ → ℕ → Rat) : A2 :=
+  let rows : Array (List Rat) := Array.ofFn (n := nb) (fun i => fullRow d nb up lo i.1)
+  mk2 nb nb (diagsEntry d (fun li i => (rows.getD i []).getD li 0))
+
+structure Mats where
+  mass : A2
+  k2 : A2
+  phiPsi : A2
+  dPhidPsi : A2
+  dPhiPsi : A2
+
+def assembleArrays (d nb : ℕ) (Q : Quad Rat) (co : Coefs Rat) (P dP : ℕ → ℕ → ℕ → Rat) : Mats :=
+  { mass := symMat d nb (massTerm d Q co P), k2 := symMat d nb (k2Term d Q co P),
+    phiPsi := symMat d nb (phiPsiTerm d Q co P),
+    dPhidPsi := fullMat d nb (dPhidPsiUp d Q co P dP) (dPhidPsiLo d Q co P dP),
+    dPhiPsi := fullMat d nb (dPhiPsiUp d Q co P dP) (dPhiPsiLo d Q co P dP) }
+
+def Mats.toAssembled (m : Mats) : Assembled Rat :=
+  { mass := get2 m.mass, k2 := get2 m.k2, phiPsi := get2 m.phiPsi, dPhidPsi := get2 m.dPhidPsi, dPhiPsi := get2 m.dPhiPsi }
+
+def Mats.json (m : Mats) : Json := obj [("mass", jA2 m.mass), ("k2", jA2 m.k2), ("phipsi", jA2 m.phiPsi),
+  ("dphidpsi", jA2 m.dPhidPsi), ("dphipsi", jA2 m.dPhiPsi)]
+
+def absA2 (a : A2) : A2 := a.map (fun r => r.map (fun v => |v|))
+def absA3 (a : A3) : A3 := a.map absA2
+
 def handleSolver (j : Json) : R Json := do
   let kn ← fRatList j "knots"; let d ← fNat j "degree"; let ncells ← fNat j "ncells"
   let nb := ncells + d
   let w ← fRatList j "weights"; let mult ← fRat j "mult"
   let xs ← rat2 (← field j "evalpts")
   let nq := w.length
-  let A ← rat2 (← field j "A"); let B ← rat2 (← field j "B"); let C ← rat2 (← field j "C")
-  let D ← rat2 (← field j "D"); let E ← rat2 (← field j "E")
-  let t := fn1 kn; let nk := kn.length
-  let X := tab2 xs
+  let tA ← rat2 (← field j "A"); let tB ← rat2 (← field j "B"); let tC ← rat2 (← field j "C")
+  let tD ← rat2 (← field j "D"); let tE ← rat2 (← field j "E")
+  let kna := kn.toArray
+  let t : ℕ → Rat := get1 kna
+  let nk := kn.length
+  let X : ℕ → ℕ → Rat := get2 xs
   -- basis tables through the evaluation-kernel model
-  let ok := (List.range nb).all (fun jj => (List.range ncells).all (fun c => (List.range nq).all (fun q =>
-    (unitSplineVal t nk d jj (X c q) false).isSome)))
-  if !ok then throw "span search failed"
-  let P := memo3 nb ncells nq (fun jj c q => (unitSplineVal t nk d jj (X c q) false).getD 0)
-  let dP := memo3 nb ncells nq (fun jj c q => (unitSplineVal t nk d jj (X c q) true).getD 0)
-  let Q : Quad Rat := { ncells := ncells, nq := nq, w := fn1 w, mult := mult, x := X }
-  let co : Coefs Rat := { A := tab2 A, B := tab2 B, C := tab2 C, D := tab2 D, E := tab2 E }
-  let asm := assembleShared d nb Q co P dP
+  let Po : Array (Array (Array (Option Rat))) := Array.ofFn (n := nb) (fun jj => Array.ofFn (n := ncells) (fun c =>
+    Array.ofFn (n := nq) (fun q => unitSplineVal t nk d jj.1 (X c.1 q.1) false)))
+  if Po.any (fun a => a.any (fun b => b.any Option.isNone)) then throw "span search failed"
+  let Pa : A3 := Po.map (fun a => a.map (fun b => b.map (fun o => o.getD 0)))
+  let dPa : A3 := mk3 nb ncells nq (fun jj c q => (unitSplineVal t nk d jj (X c q) true).getD 0)
+  let P : ℕ → ℕ → ℕ → Rat := get3 Pa
+  let dP : ℕ → ℕ → ℕ → Rat := get3 dPa
+  let wa := w.toArray
+  let Q : Quad Rat := { ncells := ncells, nq := nq, w := get1 wa, mult := mult, x := X }
+  let co : Coefs Rat := { A := get2 tA, B := get2 tB, C := get2 tC, D := get2 tD, E := get2 tE }
+  let ms := assembleArrays d nb Q co P dP
+  let asm := ms.toAssembled
   -- Σ|terms| of every entry: the same assembly on absolute values (A ↦ -|A| because the model negates A)
-  let Qa : Quad Rat := { Q with w := fun q => |Q.w q|, mult := |mult|, x := abs2 X }
-  let coa : Coefs Rat := { A := fun c q => -|co.A c q|, B := abs2 co.B, C := abs2 co.C, D := abs2 co.D, E := abs2 co.E }
-  let Pa := memo3 nb ncells nq (fun jj c q => |P jj c q|)
-  let dPa := memo3 nb ncells nq (fun jj c q => |dP jj c q|)
-  let asa := assembleShared d nb Qa coa Pa dPa
-  let mats (a : Assembled Rat) : Json := obj [("mass", jMat nb nb a.mass), ("k2", jMat nb nb a.k2),
-    ("phipsi", jMat nb nb a.phiPsi), ("dphidpsi", jMat nb nb a.dPhidPsi), ("dphipsi", jMat nb nb a.dPhiPsi)]
+  let waa := wa.map (fun v => |v|)
+  let xsa := absA2 xs
+  let Qa : Quad Rat := { ncells := ncells, nq := nq, w := get1 waa, mult := |mult|, x := get2 xsa }
+  let nAa : A2 := tA.map (fun r => r.map (fun v => -|v|))
+  let aB := absA2 tB; let aC := absA2 tC; let aD := absA2 tD; let aE := absA2 tE
+  let coa : Coefs Rat := { A := get2 nAa, B := get2 aB, C := get2 aC, D := get2 aD, E := get2 aE }
+  let Pab := absA3 Pa; let dPab := absA3 dPa
+  let msa := assembleArrays d nb Qa coa (get3 Pab) (get3 dPab)
+  let asa := msa.toAssembled
   let cnull := funcIsNull co.C ncells nq
-  let mut out : List (String × Json) := [("matrices", mats asm), ("abs", mats asa), ("cnull", toJson cnull)]
+  let mut out : List (String × Json) := [("matrices", ms.json), ("abs", msa.json), ("cnull", toJson cnull)]
   match j.getObjVal? "N" with
   | .error _ => pure (obj out)
   | .ok _ =>
@@ -144,45 +173,53 @@ def handleSolver (j : Json) : R Json := do
     | some (none, _) => pure (obj (out ++ [("chi_refused", toJson true)]))
     | _ =>
     let nodes ← fRatList j "nodes"
-    let V := memo2 nodes.length nb (fun i jj => (unitSplineVal t nk d jj (nodes.getD i 0) false).getD 0)
+    let nn := nodes.length
+    let nodesA := nodes.toArray
+    let Va : A2 := mk2 nn nb (fun i jj => (unitSplineVal t nk d jj (get1 nodesA i) false).getD 0)
+    let V : ℕ → ℕ → Rat := get2 Va
     let queries ← fList pure j "queries"
     let mut qs : Array Json := #[]
     for qj in queries do
       let I ← fNat qj "I"
       let n := modeSize c I
       let cr := coeffRange c I
-      let (M, Ma) : (ℕ → ℕ → Rat) × (ℕ → ℕ → Rat) := match stiff0 with
-        | some (some s0, some s0a) =>
-            (qnModeMatrix s0 asm c I,
-             -- Σ|terms| of the mode matrix: |stiffness| + m²|k2|  (for m = 0 the χ-selected one)
-             if m2Int c.N I = 0 then s0a
-             else fun a b => sliceSq (fun a b => stiffnessMatrix asa s a b + m2 c.N I * sliceSq asa.k2 s a b) (stiffRange c I).1 a b)
-        | _ => (modeMatrix asm c I,
-             fun a b => sliceSq (fun a b => stiffnessMatrix asa s a b + m2 c.N I * sliceSq asa.k2 s a b) (stiffRange c I).1 a b)
+      let absMode : ℕ → ℕ → Rat := fun a b =>
+        sliceSq (fun a b => stiffnessMatrix asa s a b + m2 c.N I * sliceSq asa.k2 s a b) (stiffRange c I).1 a b
+      let (Mf, Maf) : (ℕ → ℕ → Rat) × (ℕ → ℕ → Rat) := match stiff0 with
+        | some (some s0, some s0a) => (qnModeMatrix s0 asm c I, if m2Int c.N I = 0 then s0a else absMode)
+        | _ => (modeMatrix asm c I, absMode)
+      let Marr := mk2 n n Mf
+      let Maarr := mk2 n n Maf
       let xhat ← fRatList qj "xhat"          -- all nb coefficients recovered from the returned phi slice
       let phi ← fRatList qj "phi"            -- the returned phi slice (values at the nodes)
-      let xf := fn1 xhat
+      let xa := xhat.toArray
+      let xf : ℕ → Rat := get1 xa
       let x : ℕ → Rat := fun a => xf (cr.1 + a)
+      let phia := phi.toArray
       let (b, bs) ← match (qj.getObjVal? "rho_c").toOption with
         | some rc => do
           let rcl ← ratList rc
           let rho ← fRatList qj "rho"
-          let rcf := fn1 rcl
-          let interp := (List.range nodes.length).map (fun i => evalAt nb V rcf i - rho.getD i 0)
+          let rca := rcl.toArray
+          let rcaa := rca.map (fun v => |v|)
+          let rhoa := rho.toArray
+          let interp := (List.range nn).map (fun i => evalAt nb V (get1 rca) i - get1 rhoa i)
           if interp.any (· != 0) then throw "interpolation contract M c = u violated by the supplied rho coefficients"
-          pure (modeRhs asm c I rcf, modeRhs asa c I (fun jj => |rcf jj|))
+          pure (mk1 n (modeRhs asm c I (get1 rca)), mk1 n (modeRhs asa c I (get1 rcaa)))
         | none => do
           let ra ← rat2 (← field qj "rho_at")
-          pure (modeRhsFunc Q P (tab2 ra) c I, modeRhsFunc Qa Pa (abs2 (tab2 ra)) c I)
-      let evalres := (List.range nodes.length).map (fun i => evalAt nb V xf i - phi.getD i 0)
-      let res : ℕ → Rat := fun a => matVec n M x a - b a
-      let sc : ℕ → Rat := fun a => matVec n Ma (fun jj => |x jj|) a + bs a
+          let raa := absA2 ra
+          pure (mk1 n (modeRhsFunc Q P (get2 ra) c I), mk1 n (modeRhsFunc Qa (get3 Pab) (get2 raa) c I))
+      let evalres := (List.range nn).map (fun i => evalAt nb V xf i - get1 phia i)
+      let res := mk1 n (fun a => matVec n (get2 Marr) x a - get1 b a)
+      let rowabs := mk1 n (fun a => matVec n (get2 Maarr) (fun _ => 1) a)
       let outside := (List.range nb).filter (fun p => !(cr.1 ≤ p ∧ p < cr.2))
       qs := qs.push (obj [("I", jNat I), ("size", jNat n), ("coeff_range", jPair cr), ("stiff_range", jPair (stiffRange c I)),
         ("m2", jInt (m2Int c.N I)),
-        ("matrix", jMat n n M), ("rhs", jVec n b), ("residual", jVec n res), ("scale", jVec n sc),
+        ("matrix", jA2 Marr), ("matrix_abs", jA2 Maarr), ("rhs", jA1 b), ("rhs_abs", jA1 bs), ("residual", jA1 res),
+        ("rowabs", jA1 rowabs),
         ("eval_residual", jRats evalres), ("outside", jList (fun p => jRat (xf p)) outside),
-        ("after_buffer", jVec nb (coeffsAfter (fun _ => 99) nb cr x))])
+        ("after_buffer", jA1 (mk1 nb (coeffsAfter (fun _ => 99) nb cr x)))])
     pure (obj (out ++ [("queries", Json.arr qs)]))
 
 def handle (j : Json) : R Json := do
